@@ -48,6 +48,7 @@ class Contract:
     ghostparams: List[str] = field(default_factory=list)            # R9: extra ghost parameters
     ghostargs: List[Tuple[str, str]] = field(default_factory=list)  # R9: (callee regex, extra ghost argument)
     closures: Dict[str, Dict[str, str]] = field(default_factory=dict)  # let-bound closure name -> {ret, requires, ensures}
+    mustfail: List[str] = field(default_factory=list)     # extra must-fail postconditions (reachability of conditional clauses)
     slice: Dict[str, str] = field(default_factory=dict)   # R34: statement range of a larger fn verified as a fn of its own
     src: str = ''       # vspec file
     line: int = 0
@@ -143,6 +144,8 @@ def load_contracts(cdir=None) -> Dict[Tuple[str, str], Contract]:
                     cur.common_inv += '        ' + arg.rstrip(',') + ',\n'
                 elif d == '@nloops':
                     cur.nloops = int(arg)
+                elif d == '@mustfail_ensures':
+                    cur.mustfail.append(arg.strip())
                 elif d in ('@slice_from', '@slice_to'):
                     m = re.match(r'/(.*)/\s*$', arg.strip())
                     cur.slice[d[7:]] = m.group(1)
@@ -1428,8 +1431,21 @@ class Unit:
                         ttext, _ = self.fn_text(rel, path, 'body', extra_ensures='false', rename=tname)
                         for an, ty in assoc.items():
                             ttext = re.sub(r'\bSelf::%s\b' % an, ty, ttext)
+                        # a must-fail twin only has to be *unprovable*: a contradictory context proves `false` at once, so a
+                        # small resource limit is enough and keeps the guard cheap on the heavy functions
+                        ttext = re.sub(r'#\[verifier::rlimit\(\d+\)\]', '#[verifier::rlimit(40)]', ttext)
                         self.emit(ttext, '<twin:%s::%s>' % (rel, path), line0)
                         self.twins.append('%s::%s' % (rel, path))
+                        # reachability twins: the hypothesis of a conditional clause must not be refutable inside the proof
+                        cc = self.contracts.get((rel, path))
+                        for mi, mf in enumerate(cc.mustfail if cc else []):
+                            tname2 = (it.name if '#' not in path else path.split('#', 1)[1]) + '__twin_reach%d' % (mi + 1)
+                            ttext, _ = self.fn_text(rel, path, 'body', extra_ensures=mf, rename=tname2)
+                            for an, ty in assoc.items():
+                                ttext = re.sub(r'\bSelf::%s\b' % an, ty, ttext)
+                            ttext = re.sub(r'#\[verifier::rlimit\(\d+\)\]', '#[verifier::rlimit(40)]', ttext)
+                            self.emit(ttext, '<twin:%s::%s#reach%d>' % (rel, path, mi + 1), line0)
+                            self.twins.append('%s::%s#reach%d' % (rel, path, mi + 1))
                 else:
                     self.standins.append(rec)
             else:
